@@ -19,7 +19,7 @@ def run(name, patch):
         env.pop("GOWORK", None)
         fired = {}
         for p in PROPS:
-            r = subprocess.run([os.path.join(VERIF, "bin", "vcheck"), "-prop", p], capture_output=True, text=True, env=env)
+            r = subprocess.run([os.environ.get("VCHECK_BIN", os.path.join(VERIF, "bin", "vcheck")), "-prop", p], capture_output=True, text=True, env=env)
             if r.returncode != 0:
                 fired[p] = [l[:400] for l in r.stdout.splitlines() if ": [" in l][:4]
         return name, fired, ""
